@@ -3,6 +3,7 @@ package canvas
 import (
 	"bytes"
 	"image/color"
+	"math"
 )
 
 // C19-H5: whole documents through ParseSVG (XML lexer, attribute parsing, state stack, CSS rules,
@@ -64,12 +65,12 @@ func VH_C19_document_Q() {
 	vAssume(0 <= x && 0 <= y && 0.25 <= w && 0.25 <= h && x+w <= 40 && y+h <= 20)
 	tx, ty := 0.0, 0.0
 	// sources of the rectangle's fill
-	inGroup := vChoose(0, 1) == 1   // <g fill="purple" transform="translate(tx,ty)">
-	attr := vChoose(0, 1) == 1      // fill="red"
-	ruleType := vChoose(0, 1) == 1  // rect{fill:green}
-	ruleClass := vChoose(0, 1) == 1 // .k{fill:blue}   (class="k" on the rect)
-	styleAttr := vChoose(0, 1) == 1 // style="fill:yellow"
-	order := vChoose(0, 1)          // 0: style attribute first, 1: style attribute last
+	inGroup := vChoose(0, 1) == 1    // <g fill="purple" transform="translate(tx,ty)">
+	attr := vChoose(0, 1) == 1       // fill="red"
+	ruleType := vChoose(0, 1) == 1   // rect{fill:green}
+	ruleClass := vChoose(0, 1) == 1  // .k{fill:blue}   (class="k" on the rect)
+	styleAttr := vChoose(0, 1) == 1  // style="fill:yellow"
+	order := vChoose(0, 1)           // 0: style attribute first, 1: style attribute last
 	classFirst := vChoose(0, 1) == 1 // order of the two rules in the style sheet
 	doc := `<svg viewBox="` + vhC19Num(0) + " " + vhC19Num(0) + " " + vhC19Num(100) + " " + vhC19Num(50) + `" xmlns="http://www.w3.org/2000/svg">`
 	if ruleType || ruleClass {
@@ -172,8 +173,8 @@ func VH_C19_document_stroke_Q() {
 	lim := vNondetDyadic(6, 2)
 	vAssume(0.25 <= w1 && w1 <= 6 && 0.25 <= w2 && w2 <= 6 && 1 <= lim && lim <= 7 && w1 != w2 && lim != 4)
 	ownWidth := vChoose(0, 1) == 1 // the rect overrides the group's stroke-width
-	limit := vChoose(0, 2)          // 0: no stroke-miterlimit; 1: on the rect; 2: on the group
-	join := vChoose(0, 2)           // 0: no stroke-linejoin; 1: stroke-linejoin="miter" before the limit; 2: after it
+	limit := vChoose(0, 2)         // 0: no stroke-miterlimit; 1: on the rect; 2: on the group
+	join := vChoose(0, 2)          // 0: no stroke-linejoin; 1: stroke-linejoin="miter" before the limit; 2: after it
 	doc := `<svg viewBox="` + vhC19Num(0) + " " + vhC19Num(0) + " " + vhC19Num(100) + " " + vhC19Num(50) + `" xmlns="http://www.w3.org/2000/svg">`
 	doc += `<g stroke="red" stroke-width="` + vhC19Num(w1) + `"`
 	if limit == 2 {
@@ -393,4 +394,65 @@ func VH_C19_document_dashes_Q() {
 	}
 	vAssert("C19.docdash.drawn_dash_lengths_are_the_documents", ok)
 	vAssert("C19.docdash.sibling_is_solid", len(b.style.Dashes) == 0)
+}
+
+// C19-H10: paint servers.  A rect filled with a linear or a radial gradient whose geometry is
+// given in user space (gradientUnits="userSpaceOnUse", symbolic numbers), inside a group that is
+// translated, under a viewBox that scales: the gradient the renderer receives lies where the
+// document puts it - its points are the images of the document's points under the same map that
+// takes the rect's user space to the canvas (read off the recorded matrix of the rect), radii
+// scaled alike, stops kept - and a second rect without a paint server keeps its plain colour.
+func VH_C19_document_gradient_Q() {
+	vhC19Stubs()
+	radial := vChoose(0, 1) == 1
+	x1, y1, x2, y2 := vNondetDyadic(7, 1), vNondetDyadic(7, 1), vNondetDyadic(7, 1), vNondetDyadic(7, 1)
+	vAssume(0 <= x1 && x1 <= 60 && 0 <= y1 && y1 <= 60 && 0 <= x2 && x2 <= 60 && 0 <= y2 && y2 <= 60)
+	r1 := vNondetDyadic(6, 1)
+	vAssume(1 <= r1 && r1 <= 30)
+	doc := `<svg width="` + vhC19Num(40) + `" height="` + vhC19Num(20) + `" viewBox="` + vhC19Num(0) + " " + vhC19Num(0) + " " + vhC19Num(80) + " " + vhC19Num(40) + `" xmlns="http://www.w3.org/2000/svg"><defs>`
+	stops := `<stop offset="` + vhC19Num(0) + `" stop-color="#00f"/><stop offset="` + vhC19Num(1) + `" stop-color="#f00"/>`
+	if radial {
+		doc += `<radialGradient id="g" gradientUnits="userSpaceOnUse" fx="` + vhC19Num(x1) + `" fy="` + vhC19Num(y1) + `" fr="` + vhC19Num(0) + `" cx="` + vhC19Num(x2) + `" cy="` + vhC19Num(y2) + `" r="` + vhC19Num(r1) + `">` + stops + `</radialGradient>`
+	} else {
+		doc += `<linearGradient id="g" gradientUnits="userSpaceOnUse" x1="` + vhC19Num(x1) + `" y1="` + vhC19Num(y1) + `" x2="` + vhC19Num(x2) + `" y2="` + vhC19Num(y2) + `">` + stops + `</linearGradient>`
+	}
+	doc += `</defs><g transform="translate(` + vhC19Num(4) + " " + vhC19Num(2) + `)"><rect x="` + vhC19Num(10) + `" y="` + vhC19Num(6) + `" width="` + vhC19Num(30) + `" height="` + vhC19Num(20) + `" fill="url(#g)"/>`
+	doc += `<rect x="` + vhC19Num(50) + `" y="` + vhC19Num(6) + `" width="` + vhC19Num(3) + `" height="` + vhC19Num(4) + `" fill="#0f0"/></g></svg>`
+	c, err := ParseSVG(bytes.NewReader([]byte(doc)))
+	vAssert("C19.docgrad.parsed", err == nil && c != nil)
+	if err != nil || c == nil {
+		return
+	}
+	rec := &vhC15Rec{w: c.W, h: c.H}
+	c.RenderTo(rec)
+	vAssert("C19.docgrad.two_paths", len(rec.calls) == 2)
+	if len(rec.calls) != 2 {
+		return
+	}
+	a, b := rec.calls[0], rec.calls[1]
+	// user space of the rect -> canvas: the recorded matrix places the rect's local origin at its (x,y)
+	um := a.m.Translate(-10, -6)
+	ok := a.style.Fill.IsGradient()
+	if ok {
+		if radial {
+			g, isR := a.style.Fill.Gradient.(*RadialGradient)
+			ok = isR
+			if ok {
+				p0, p1 := um.Dot(Point{x1, y1}), um.Dot(Point{x2, y2})
+				sc := math.Sqrt(math.Abs(um.Det()))
+				ok = vhC19Near(g.C0.X, p0.X) && vhC19Near(g.C0.Y, p0.Y) && vhC19Near(g.C1.X, p1.X) && vhC19Near(g.C1.Y, p1.Y) &&
+					vhC19Near(g.R0, 0) && vhC19Near(g.R1, r1*sc) && len(g.Stops) == 2 && g.Stops[0].Color == Blue && g.Stops[1].Color == Red
+			}
+		} else {
+			g, isL := a.style.Fill.Gradient.(*LinearGradient)
+			ok = isL
+			if ok {
+				p0, p1 := um.Dot(Point{x1, y1}), um.Dot(Point{x2, y2})
+				ok = vhC19Near(g.Start.X, p0.X) && vhC19Near(g.Start.Y, p0.Y) && vhC19Near(g.End.X, p1.X) && vhC19Near(g.End.Y, p1.Y) &&
+					len(g.Stops) == 2 && g.Stops[0].Color == Blue && g.Stops[1].Color == Red
+			}
+		}
+	}
+	vAssert("C19.docgrad.gradient_lies_where_the_document_puts_it", ok)
+	vAssert("C19.docgrad.sibling_keeps_its_colour", b.style.Fill.IsColor() && b.style.Fill.Color == Lime)
 }
